@@ -27,6 +27,11 @@ Definition wrap_rename (t : xtok) : xtok :=
   if str_eqb (fst t) K_LSBEGIN then (n_block, snd t) else if str_eqb (fst t) K_LSEND then (K_BLOCKEND0, snd t) else t.
 Definition wrap (toks : list xtok) : list xtok := map wrap_rename (filter (fun t => negb (wrap_drop (fst t))) toks).
 
+Definition is_none {A} (o : option A) : bool := match o with None => true | Some _ => false end.
+Definition K_OPERATOR : str := [111; 112; 101; 114; 97; 116; 111; 114].
+Definition minus_first (toks : list xtok) : bool :=
+  match toks with (k, v) :: _ => str_eqb k K_OPERATOR && str_eqb v [45] | [] => false end.
+
 Inductive pnode (E St : Type) :=
 | PData (d : str)                                    (* TemplateData *)
 | PPrint (e : jnode E)                               (* print statement: plain, or Filter(rv, 'lineprefix', [Const prefix]) *)
@@ -38,6 +43,8 @@ Section Pipe.
   Variables E St C V : Type.
   (* the parser's marker decision for a variable_begin / block_begin token value: Some prefix = auto-indent (upstream: never) *)
   Variables mark_v mark_b : str -> option str.
+  (* the print-statement guard of design_notes/C19_marker_minus_fix.patch: marker directly followed by the operator '-' -> syntax error *)
+  Variable guard : bool.
   Variable parse_tuple : list xtok -> option (E * list xtok).
   Variable parse_statement : (list str -> list xtok -> option (list (pnode E St) * list xtok)) -> list xtok -> option (list St * list xtok).
 
@@ -54,6 +61,7 @@ Section Pipe.
             if str_eqb k K_DATA then
               match subparse f ends rest with Some (ns, r) => Some (PData v :: ns, r) | None => None end
             else if str_eqb k n_variable then
+              if guard && negb (is_none (mark_v v)) && minus_first rest then None else
               match parse_tuple rest with
               | Some (e, (k2, _) :: rest2) =>
                   if str_eqb k2 K_VAREND then
@@ -140,7 +148,6 @@ Section Pipe.
 End Pipe.
 
 Definition is_begin_kind (k : str) : bool := str_eqb k n_variable || str_eqb k n_block.
-Definition is_none {A} (o : option A) : bool := match o with None => true | Some _ => false end.
 (* no begin token is taken for a marker by the parser *)
 Definition no_marker_tokens (mv mb : str -> option str) (toks : list xtok) : bool :=
   forallb (fun t => (negb (str_eqb (fst t) n_variable) || is_none (mv (snd t))) && (negb (str_eqb (fst t) n_block) || is_none (mb (snd t)))) toks.
